@@ -260,6 +260,47 @@ func init() {
 						c.Violation("many-reserves", fmt.Sprintf("the page rendered %s, want %q", clipS(got.Describe(), 600), clipS(want.String(), 600)), map[string]any{"files": describeFiles(files)})
 					}
 				}},
+				// reserves inside loops of the layout: the insert body sees the loop object of the pass it is rendered in, and a
+				// loop object it kept from an earlier pass still describes that earlier pass
+				{Name: "reserves-inside-layout-loops", Exhaustive: true, N: 4, Run: func(c *core.Ctx, i int) {
+					var files map[string]string
+					var want string
+					data := map[string]any{"items": []string{"a", "b", "c"}}
+					switch i {
+					case 0:
+						files = map[string]string{"layouts/list.tw": "<ul>@each(item in items)<li>@reserve(\"row\")</li>@end</ul>@reserve(\"foot\")",
+							"page.tw": "@use(\"~list\")\n@insert(\"row\")@if(loop.index > 0)after #{{ prev.iter }} ({{ prev.last ? \"last\" : \"not last\" }}): @end{{ item }}{{ prev = loop }}@end\ntext between\n@insert(\"foot\", items.len())\n"}
+						want = "<ul><li>a</li><li>after #1 (not last): b</li><li>after #2 (not last): c</li></ul>3"
+					case 1: // the argument form reads the loop object of each pass
+						files = map[string]string{"layouts/list.tw": "@each(item in items)[@reserve(\"row\")]@end|@for(k = 0; k < 2; k++)(@reserve(\"cell\"))@end",
+							"page.tw": "@use(\"~list\")@insert(\"row\", item + loop.iter.str() + (loop.last ? \"!\" : \"\"))@insert(\"cell\", k * 10)"}
+						want = "[a1][b2][c3!]|(0)(10)"
+					case 2: // nested loops of the layout, the insert body loops itself
+						files = map[string]string{"layouts/grid.tw": "@each(row in [1, 2])<@each(col in items){{ loop.index }}:@reserve(\"cell\");@end>@end",
+							"page.tw": "@use(\"~grid\")@insert(\"cell\"){{ row }}{{ col }}{{ loop.iter }}@each(z in [9]){{ loop.iter }}@end{{ loop.iter }}@end"}
+						want = "<0:1a111;1:1b212;2:1c313;><0:2a111;1:2b212;2:2c313;>"
+					default: // loop objects of all passes collected by the insert body and read in the last pass (what the loop body assigns ends with the loop)
+						files = map[string]string{"layouts/list.tw": "{{ seen = [] }}@each(item in items)@reserve(\"row\")@end|@reserve(\"sum\")",
+							"page.tw": "@use(\"~list\")@insert(\"row\"){{ seen = seen.append(loop) }}{{ item }}@if(loop.last)<@each(s in seen){{ s.index }}{{ s.first ? \"F\" : \"\" }}{{ s.last ? \"L\" : \"\" }},@end>@end@end@insert(\"sum\", seen.len())"}
+						want = "abc<0F,1,2L,>|0"
+					}
+					tpl, err := loadTree(c, "c06loops", files, ".tw")
+					c.Nontrivial(fmt.Sprint("layout-loops", i))
+					if err != nil {
+						c.Violation("layout-loops:load-failed", err.Error(), map[string]any{"files": describeFiles(files)})
+						return
+					}
+					if tpl == nil {
+						return
+					}
+					for round := 0; round < 2; round++ {
+						got, _ := renderPage(c, tpl, "page", data)
+						if !got.Panicked && (got.Err != nil || got.Out != want) {
+							c.Violation("layout-loops", fmt.Sprintf("render %d of the page gave %s, want %q", round+1, clipS(got.Describe(), 600), want), map[string]any{"files": describeFiles(files)})
+							return
+						}
+					}
+				}},
 				// pages of one loaded Template rendered one after the other without data: what the insert blocks and the layout
 				// of one render assigned is not there in the next
 				{Name: "data-less-renders-of-one-template", Exhaustive: true, N: 2, Run: func(c *core.Ctx, i int) {
